@@ -105,6 +105,8 @@ def c05(repo, rep):
         R.r9_discrete(repo, rep)
     with rep.keep("INV"):
         M.investigation_rule(repo, rep)      # "per-node statuses at tmin" are read through node_status / get_statuses
+    with rep.keep("R14.gin"):
+        M.r14(repo, rep)                     # "initially recovered nodes ... are never infected later" (percolation-based runs)
 
 
 def c06(repo, rep):
@@ -242,6 +244,15 @@ def c14(repo, rep):
         O.r4(repo, rep)                     # a layout that follows dict order on one side only depends on insertion order
     X.labels_not_in_numpy(repo, rep)
     X.nodelist_order_rule(repo, rep)
+    # "leaves the deterministic-rule simulators' per-node histories unchanged up to the relabelling": every contact is tested
+    # (not one per exposed node, chosen by iteration order), the percolation builders judge u->v with u's own duration, and the
+    # rate functions read the weight of the ordered pair they are asked about
+    with rep.keep("DISC"):
+        X.discrete_contacts(repo, rep)
+    with rep.keep("R14"):
+        M.r14(repo, rep)
+    with rep.keep("RATE"):
+        G.rate_functions_rule(repo, rep)
 
 
 def c15(repo, rep):
@@ -275,6 +286,8 @@ def c18(repo, rep):
     M.full_data_handoff(repo, rep)
     effects.r5(repo, rep, modules=("simulation",))   # "identical output on repeated calls": a call must not change its arguments
     X.state_rule(repo, rep)
+    with rep.keep("HIST"):
+        M.transform_history_rule(repo, rep)  # "independent of whether full data is requested": histories are rebuilt from every recorded event
 
 
 def c19(repo, rep):
